@@ -915,6 +915,12 @@ func (b *Builder) PatchConfig() ([]byte, error) {
 			logger.Debug(fmt.Sprintf("Host => %v", host))
 
 			HostPort = strings.Split(host, ":")
+			if len(HostPort) > 2 {
+				/* host:port has one ':'. anything after a second one (an IPv6 literal, a typo)
+				 * would be dropped and the payload told to call another host */
+				logger.Error("Failed to parse the Host: " + host)
+				return nil, errors.New("Failed to parse the Host (expected host or host:port): " + host)
+			}
 			host = HostPort[0]
 			if len(HostPort) > 1 {
 				/* seems like we specified host:port */
